@@ -5,7 +5,7 @@ CONSTANTS Names <- NoNames Depth = 0 Vals <- None Sep = 46 Design = "list" Base 
   Routes <- RouteNames Cfgs <- AllCfgs SingleKinds <- None PrePaths <- None
   LoadKinds <- None TwoFiles = FALSE EnvCalls <- None ArgCalls <- None ClearLists <- None
   MsgSets <- None MsgGets <- None NodeBases <- None FputSeps <- None
-  MaxOps = 1000000 MaxArr = 1000000 SinglesFirst = FALSE Observe = FALSE
+  MaxOps = 1000000 MaxArr = 1000000 SingleWhen = "any" QuoteSet <- AllQuotes Observe = FALSE
 INVARIANTS Refines PrefixClosed PathRefines
 PROPERTIES ArrivalProp SingleProp PathProp PrintProp
 POSTCONDITION TraceAccepted
